@@ -20,7 +20,7 @@ pub fn property() -> Property {
             "gray deviations (bare LF, blank/sign-padded sizes, trailers, stray CR, size line > 100 bytes) are executed but only judged for the prefix rule up to the deviation",
             "after an Err was returned, later reads may return Err or Ok(0); only fabricated bytes are judged there",
         ],
-        min_nontrivial: |t| t.pick(10_000, 200_000),
+        min_nontrivial: |t| t.pick(10_000, 100_000),
         gens,
         required_counters: &["error_then_read_again_histories", "fault_cut", "fault_err_sticky", "fault_err_oneshot", "fault_corrupt", "state_in-size-line", "state_in-data", "state_in-data-crlf", "state_in-terminator", "state_in-length-body"],
         max_shards: 64,
@@ -34,6 +34,7 @@ fn gens(tier: Tier) -> Vec<Gen> {
         Gen { name: "corrupt", count: corrupt_count(), exhaustive: true, run: run_corrupt },
         Gen { name: "random", count: tier.pick(1_500, 200_000), exhaustive: false, run: run_random },
         Gen { name: "large", count: tier.pick(120, 4_000), exhaustive: false, run: run_large },
+        Gen { name: "textreader-ioerr", count: textreader_count(), exhaustive: true, run: run_textreader },
     ]
 }
 
@@ -216,13 +217,22 @@ pub fn run_case(ctx: &mut Ctx, rng: &mut Rng, c: &Case) {
     let first_end: Option<End>;
     let delivered_all: Vec<u8>;
     let mut after_end_results = 0usize;
-    match &c.plan {
+    let text_sizes: Option<Vec<usize>> = if let ReadPlan::TextReader { sizes } = &c.plan { Some(sizes.clone()) } else { None };
+    let loop_plan = match &c.plan {
+        ReadPlan::TextReader { sizes } => ReadPlan::Loop { sizes: sizes.clone(), via_split: false },
+        p => p.clone(),
+    };
+    match &loop_plan {
         ReadPlan::Loop { sizes, via_split } => {
             let mut on_read = |delivered: &[u8], _res: &io::Result<usize>| {
                 check_prefix(delivered, &mut prefix_violation);
                 true
             };
-            let out = if *via_split {
+            let out = if text_sizes.is_some() {
+                ctx.count("text_reader_histories", 1);
+                let mut r = resp.text_reader();
+                read_loop(&mut r, sizes, c.extra_reads, &mut on_read)
+            } else if *via_split {
                 let (_, _, mut r) = resp.split();
                 read_loop(&mut r, sizes, c.extra_reads, &mut on_read)
             } else {
@@ -566,5 +576,34 @@ fn run_large(ctx: &mut Ctx, rng: &mut Rng, _index: u64) {
     };
     ctx.count("large_chunk_cases", 1);
     let c = Case { base, fault, seg_class: if rng.bool() { 0 } else { 2 }, plan, extra_reads: rng.range(0, 4) };
+    run_case(ctx, rng, &c);
+}
+
+// ---- the streaming text reader is a body reader too: same faults, read through text_reader() ---------
+
+fn text_base(i: usize) -> Base {
+    let framing = Framing::ALL[i % 3];
+    let payload: Vec<u8> = b"The quick brown fox jumps over the lazy dog 0123456789".iter().cycle().take([10usize, 23, 64][(i / 3) % 3]).copied().collect();
+    let sizes = if framing == Framing::Chunked { vec![payload.len() / 2, payload.len() - payload.len() / 2] } else { vec![] };
+    let b = build_response("HTTP/1.1 200 OK", &[("Content-Type".into(), b"text/plain; charset=utf-8".to_vec())], framing, &payload, &sizes, &[Default::default()], b"");
+    Base { framing, payload, wire: b.wire, head_len: b.head_len, frame_end: b.frame_end }
+}
+
+fn textreader_per_base(i: usize) -> u64 {
+    let b = text_base(i);
+    ((b.frame_end - b.head_len) as u64 + 1) * 4 * 3
+}
+
+fn textreader_count() -> u64 {
+    (0..9).map(textreader_per_base).sum()
+}
+
+fn run_textreader(ctx: &mut Ctx, rng: &mut Rng, index: u64) {
+    let (bi, idx) = locate(index, textreader_per_base);
+    let base = text_base(bi);
+    let buf = [1usize, 2, 3][(idx % 3) as usize];
+    let (kind, sticky) = KINDS[((idx / 3) % 4) as usize];
+    let at = base.head_len + (idx / 12) as usize;
+    let c = Case { base, fault: Fault::Err { at, kind, sticky }, seg_class: (idx % 2) as u8, plan: ReadPlan::TextReader { sizes: vec![buf] }, extra_reads: 2 + (idx % 3) as usize };
     run_case(ctx, rng, &c);
 }
